@@ -320,6 +320,9 @@ def run_property(prop, tier, seed, workers=None, examples=None, shrink=None):
         else:
             total.merge(payload)
             found.extend(f)
+    fuzz_info = None
+    if budget.get("fuzz_runs") and examples is None and not errors:
+        fuzz_info = run_fuzz(prop, tier, seed, budget["fuzz_runs"], budget.get("fuzz_children", workers), excluded | {s for s, _, _ in found}, total, found)
     # one replay per signature (smallest case)
     by_sig = {}
     for sig, msg, case in found:
@@ -338,7 +341,7 @@ def run_property(prop, tier, seed, workers=None, examples=None, shrink=None):
         lines.append(f"  signature={sig}")
         lines.append(f"  {msg[:600]}")
     n_nontrivial = len(total.nontrivial_hashes) + total.unique_nontrivial
-    write_evidence(mod, prop, tier, seed, total, n_nontrivial, wall, len(by_sig), nshards, errors)
+    write_evidence(mod, prop, tier, seed, total, n_nontrivial, wall, len(by_sig), nshards, errors, fuzz_info)
     for l in lines:
         print(l)
     summary = (
@@ -372,7 +375,50 @@ def write_replay(prop, sig, msg, case):
     return os.path.relpath(path, ROOT)
 
 
-def write_evidence(mod, prop, tier, seed, total, n_nontrivial, wall, nviol, nshards, errors):
+def run_fuzz(prop, tier, seed, runs, children, excluded, total, found):
+    """Coverage-guided campaign (atheris/libFuzzer driving Hypothesis' byte decoder) with the same
+    oracle; merged into the same statistics.  Skipped (and reported as skipped) if atheris is missing."""
+    import shutil
+    import subprocess
+    import tempfile
+
+    if not os.path.isdir(os.path.join(ROOT, ".deps", "atheris")):
+        return {"skipped": "atheris not installed under .deps (run setup.sh)"}
+    tmp = tempfile.mkdtemp(prefix="fuzz.")
+    info = {"children": children, "runs_per_child": runs, "evaluations": 0, "violation_signatures": []}
+    try:
+        procs = []
+        for k in range(children):
+            out = os.path.join(tmp, f"out{k}.json")
+            cmd = [sys.executable, os.path.join(ROOT, "lib", "fuzz_child.py"), prop, tier, str(seed * 100 + k + 1), str(runs), out,
+                   os.path.join(tmp, f"corpus{k}")] + sorted(excluded)
+            procs.append((out, subprocess.Popen(cmd, cwd=ROOT, stdout=subprocess.DEVNULL, stderr=subprocess.DEVNULL,
+                                                env=dict(os.environ, PYTHONHASHSEED="0"))))
+        for out, p in procs:
+            p.wait()
+            if not os.path.exists(out):
+                info.setdefault("child_errors", 0)
+                info["child_errors"] += 1
+                continue
+            d = json.load(open(out))
+            st = Stats()
+            st.evaluations = d["evaluations"]
+            st.nontrivial_hashes = set(d["nontrivial_hashes"])
+            st.labels, st.counters, st.excluded = d["labels"], d["counters"], d["excluded"]
+            samples = [dec(c) for c in d["samples"]]
+            st.first, st.last = samples[:2], samples[2:]
+            total.merge(st)
+            info["evaluations"] += d["evaluations"]
+            for sig, msg, case in d["found"]:
+                found.append((sig, msg, dec(case)))
+                info["violation_signatures"].append(sig)
+    finally:
+        shutil.rmtree(tmp, ignore_errors=True)
+    info["violation_signatures"] = sorted(set(info["violation_signatures"]))
+    return info
+
+
+def write_evidence(mod, prop, tier, seed, total, n_nontrivial, wall, nviol, nshards, errors, fuzz_info=None):
     os.makedirs(os.path.join(ROOT, "evidence"), exist_ok=True)
     samples = [enc(c) for c in (total.first + total.last)]
     cov = {
@@ -385,6 +431,8 @@ def write_evidence(mod, prop, tier, seed, total, n_nontrivial, wall, nviol, nsha
         "excluded": total.excluded,
         "shards": nshards,
     }
+    if fuzz_info is not None:
+        cov["coverage_guided_fuzzing"] = fuzz_info
     req = getattr(mod, "EXPECTED_LABELS", ())
     cov["missing_expected_labels"] = [l for l in req if total.labels.get(l, 0) == 0]
     if getattr(mod, "EXHAUSTIVE", {}).get(tier):
